@@ -172,6 +172,7 @@ fn insert_next_block_headers(state: &mut State, next_block_headers: &[BlockHeade
         final(state).utxos == old(state).utxos,
         final(state).stable_block_headers == old(state).stable_block_headers,
         final(state).syncing_state == old(state).syncing_state,
+        final(state).unstable_blocks.next_block_headers.offered@ == old(state).unstable_blocks.next_block_headers.offered@ + 1,
 { unimplemented!() }
 
 //@extract file=canister/src/heartbeat.rs item="fn maybe_process_response" props=C10,C13
@@ -194,6 +195,13 @@ fn insert_next_block_headers(state: &mut State, next_block_headers: &[BlockHeade
 //@|        (b.num_block_deserialize_errors == a.num_block_deserialize_errors && b.num_insert_block_errors == a.num_insert_block_errors)
 //@|        || (b.num_block_deserialize_errors == a.num_block_deserialize_errors + 1 && b.num_insert_block_errors == a.num_insert_block_errors)
 //@|        || (b.num_block_deserialize_errors == a.num_block_deserialize_errors && b.num_insert_block_errors == a.num_insert_block_errors + 1) }),
+//@|     // "the remaining blocks of that response are dropped": after a decode or insert error the announced headers of the
+//@|     // response are NOT offered either; after a fully processed complete response they are offered exactly once
+//@|     ({ let a = old(state).syncing_state; let b = final(state).syncing_state;
+//@|        let off0 = old(state).unstable_blocks.next_block_headers.offered@; let off1 = final(state).unstable_blocks.next_block_headers.offered@;
+//@|        if b.num_block_deserialize_errors != a.num_block_deserialize_errors || b.num_insert_block_errors != a.num_insert_block_errors { off1 == off0 }
+//@|        else if old(state).syncing_state.response_to_process matches Some(ResponseToProcess::Complete(_)) { off1 == off0 + 1 }
+//@|        else { off1 == off0 } }),
 //@|     // processing a reply never ingests, never touches stable data or the fetch flag
 //@|     final(state).utxos == old(state).utxos,
 //@|     final(state).stable_block_headers == old(state).stable_block_headers,
@@ -206,6 +214,7 @@ fn insert_next_block_headers(state: &mut State, next_block_headers: &[BlockHeade
 //@|     state.syncing_state.is_fetching_blocks == old(state).syncing_state.is_fetching_blocks,
 //@|     state.syncing_state.num_block_deserialize_errors == old(state).syncing_state.num_block_deserialize_errors,
 //@|     state.syncing_state.num_insert_block_errors == old(state).syncing_state.num_insert_block_errors,
+//@|     state.unstable_blocks.next_block_headers.offered@ == old(state).unstable_blocks.next_block_headers.offered@,
 //@|     old(state).syncing_state.response_to_process matches Some(ResponseToProcess::Complete(_)),
 //@|     old(state).syncing_state.num_block_deserialize_errors < u64::MAX,
 //@|     old(state).syncing_state.num_insert_block_errors < u64::MAX,
